@@ -88,6 +88,9 @@ def _build():
     add(E('xstr:hex()', ('xstr', 'hex', b''), minver='3.0'))
     add(E('xstr:hex(deadbeef)', ('xstr', 'hex', bytes.fromhex('deadbeef')), minver='3.0', rep=True))
     add(E('xstr:b64', ('xstr', 'b64', b'\x00\x01\x02'), minver='3.0'))
+    add(E('xstr:b64-58bytes', ('xstr', 'b64', bytes(range(3, 61))), minver='3.0', rep=True))
+    add(E('xstr:b64-200bytes', ('xstr', 'b64', bytes(i % 251 for i in range(200))), minver='3.0'))
+    add(E('xstr:hex-100bytes', ('xstr', 'hex', bytes(i % 256 for i in range(100))), minver='3.0'))
     for pl in ['x', 'a"b', 'a:b', 'a\nb', 'a\\b', '', u'é', '$', 'a,b', ')', '\x01', 'a b']:
         add(E('xstr:Foo(%r)' % pl, ('xstr', 'Foo', pl), minver='3.0', rep=pl in ('x', 'a"b', 'a:b')))
     add(E('xstr:Bin(text/plain)', ('xstr', 'Bin', 'text/plain'), minver='3.0'))
